@@ -57,6 +57,8 @@ type Scenario struct {
 	Runs    []PackRun `json:"runs"`
 	Conc    bool      `json:"conc,omitempty"`  // runs execute as concurrent tasks
 	Chdirs  []string  `json:"chdirs,omitempty"` // a further task that only changes the working directory
+	Others  []string  `json:"others,omitempty"` // further concurrent tasks packing other trees with other rule files: hist1 hist4 big
+	SharedPacker bool `json:"shared_packer,omitempty"` // all Pack calls of the scenario go through one *Packer
 	SchedSeed  uint64 `json:"sched_seed,omitempty"`
 	SchedShape string `json:"sched_shape,omitempty"`
 	Tapes      [][]int `json:"tapes,omitempty"` // pinned schedule tapes, one per scheduler in creation order
